@@ -1,6 +1,7 @@
 package engine
 
 import (
+	"strings"
 	"testing"
 
 	"verifsim/model"
@@ -64,8 +65,28 @@ func Protocol(t *testing.T, bind *Binding, job *Job, p *sdl.Program, acc *statAc
 	}
 	switch job.Property {
 	case "C01", "C03":
+		var first *model.Obs
+		var firstSpec SpecData
 		for _, s := range sweepSpecs(p, job, SpecData{Lookups: true}) {
-			do(s)
+			o := do(s)
+			if first == nil && o.OK() {
+				first, firstSpec = o, s
+			}
+		}
+		// a creation that fails once inside a lookup its caller copes with is attempted again
+		// later in the same start: every initialization callback in turn fails the first time
+		tolerant := false
+		for _, i := range p.Instances {
+			tolerant = tolerant || (i.Tolerant && len(i.InitLookups) != 0)
+		}
+		if job.Property == "C03" && tolerant && first != nil {
+			n := 0
+			for _, site := range first.Sites {
+				if (strings.HasPrefix(site, "init:") || strings.HasPrefix(site, "aps:")) && strings.HasSuffix(site, "#0") && n < 8 {
+					n++
+					do(faultSpec(firstSpec, first, site))
+				}
+			}
 		}
 	case "C06":
 		for _, s := range sweepSpecs(p, job, SpecData{Lookups: true}) {
